@@ -280,8 +280,18 @@ impl<C: Suite> Interp<C> {
     pub fn step(&mut self, st: &Value) -> SR<Value> {
         let op = st.get("op").and_then(|x| x.as_str()).ok_or(ScriptError("step without op".into()))?.to_string();
         // random source for this step
-        let scripted: Option<Vec<Vec<u8>>> = match st.get("rng") {
-            Some(Value::Array(a)) => Some(a.iter().map(bytes_of).collect::<SR<Vec<_>>>()?),
+        let scripted: Option<Vec<Vec<u8>>> = match (st.get("rng"), st.get("rng32")) {
+            (Some(Value::Array(a)), _) => Some(a.iter().map(bytes_of).collect::<SR<Vec<_>>>()?),
+            // shorthand: 32-byte draws, 31 zero bytes followed by the given byte
+            (_, Some(Value::Array(a))) => Some(
+                a.iter()
+                    .map(|b| {
+                        let mut v = vec![0u8; 32];
+                        v[31] = b.as_u64().unwrap_or(0) as u8;
+                        v
+                    })
+                    .collect(),
+            ),
             _ => None,
         };
         let mut srng = ScriptRng::new(scripted.clone().unwrap_or_default());
@@ -551,7 +561,11 @@ impl<C: Suite> Interp<C> {
                 let pkp = self.pkp(&st["pkp"])?;
                 let vs = *pkp.verifying_shares().get(&vsid).ok_or(ScriptError("verify_share: vsid not in pkp".into()))?;
                 let (z, pkg) = (self.zs(&st["share"])?, self.pkg(&st["pkg"])?);
-                match frost::verify_signature_share(id, &vs, &z, &pkg, pkp.verifying_key()) {
+                let vk = match st.get("vk") {
+                    Some(h) if !h.is_null() => self.vk_of(h)?,
+                    _ => *pkp.verifying_key(),
+                };
+                match frost::verify_signature_share(id, &vs, &z, &pkg, &vk) {
                     Ok(()) => Ok(json!({"ok": true})),
                     Err(e) => Ok(self.err_j(&e)),
                 }
